@@ -1102,7 +1102,9 @@ def run(ctx):
     cases = MM.compress_cases(ctx)
     r2 = random.Random(901 + seed)
     r2.shuffle(cases)
-    ncase = 300 if quick else 6000
+    ncase = 300 if quick else 2000
+    # (an uncapped density-matrix sweep of an operator keeps every eigenvector: cost only)
+    cases = [c for c in cases if not (c["method"] == "dm" and c["cap"] == 0 and c["kind"] == "mpo" and c["L"] >= 4)]
     for k, c in enumerate(cases[:ncase]):
         w = replay_compress_case(c, ntr, dtypes[k % 4] if k % 5 == 0 else "complex128", 7000 + 13 * seed + k)
         recs += w.recs
